@@ -180,23 +180,23 @@ fn join_case(cx: &Cx) -> CaseOut {
 }
 
 pub static SECTIONS: &[Section] = &[
-    Section { name: "join_1tick", f: join_case, thorough_only: false, differential: true },
-    Section { name: "join_2tick", f: join_case, thorough_only: false, differential: true },
-    Section { name: "join_3tick", f: join_case, thorough_only: false, differential: true },
+    Section { name: "join_1tick", f: join_case, thorough_only: false, differential: true, len_cap: usize::MAX },
+    Section { name: "join_2tick", f: join_case, thorough_only: false, differential: true, len_cap: usize::MAX },
+    Section { name: "join_3tick", f: join_case, thorough_only: false, differential: true, len_cap: usize::MAX },
 ];
 
 /// Shards of a section: every (kind, persistence, mode vector, first left input).
 pub fn shards(n_ticks: usize, l1_max: usize, reduced: bool) -> Vec<Vec<u8>> {
     let l1s = vf_explore::combi::sequences_upto(&[0u8, 1, 2, 3], l1_max);
     let mut out = vec![];
-    // `reduced` (quick tier, 3-tick histories): only the two homogeneous state kinds and only
-    // histories in which at least one side persists (the others are covered by 1-/2-tick sections).
+    // `reduced` (quick tier, 3-tick histories): only the two homogeneous state kinds.
     let kinds: &[u8] = if reduced { &[0, 1] } else { &[0, 1, 2, 3] };
     for &kind in kinds {
         // With a single tick the persistence flags cannot matter.
         let persists: Vec<(u8, u8)> = if n_ticks == 1 {
             vec![(0, 0)]
-        } else if reduced {
+        } else if n_ticks == 3 {
+            // 3-tick histories without any persisting side are three independent ticks.
             vec![(0, 1), (1, 0), (1, 1)]
         } else {
             vec![(0, 0), (0, 1), (1, 0), (1, 1)]
